@@ -826,22 +826,26 @@ func processStructLiteralProvider(fset *token.FileSet, typeName *types.TypeName)
 		Pkg:      typeName.Pkg(),
 		Name:     typeName.Name(),
 		Pos:      pos,
-		Args:     make([]ProviderInput, st.NumFields()),
 		IsStruct: true,
 		Out:      []types.Type{out, types.NewPointer(out)},
 	}
 	for i := 0; i < st.NumFields(); i++ {
 		f := st.Field(i)
-		provider.Args[i] = ProviderInput{
+		if f.Name() == "_" {
+			// A blank field cannot be named in a struct literal.
+			continue
+		}
+		arg := ProviderInput{
 			Type:      f.Type(),
 			FieldName: f.Name(),
 			fieldPkg:  f.Pkg(),
 		}
-		for j := 0; j < i; j++ {
-			if types.Identical(provider.Args[i].Type, provider.Args[j].Type) {
-				return nil, []error{notePosition(fset.Position(pos), fmt.Errorf("provider struct has multiple fields of type %s", types.TypeString(provider.Args[j].Type, nil)))}
+		for _, prev := range provider.Args {
+			if types.Identical(arg.Type, prev.Type) {
+				return nil, []error{notePosition(fset.Position(pos), fmt.Errorf("provider struct has multiple fields of type %s", types.TypeString(prev.Type, nil)))}
 			}
 		}
+		provider.Args = append(provider.Args, arg)
 	}
 	return provider, nil
 }
